@@ -80,6 +80,63 @@ func (c *Ctx) requireGuardedApply(call ssa.CallInstruction, ownerType string, wh
 	default:
 		c.R.OK(site(call)+" guarded", c.pos(call.Pos()), "carries "+cfgx.ShortCallee(cfgx.CalleeName(g))+"(owner.GetUID()) for "+why)
 	}
+	c.noWriteBeforeGuard(call, g)
+}
+
+// noWriteBeforeGuard: the applicator runs its options in order: nothing that
+// writes may run before ownership was checked.
+func (c *Ctx) noWriteBeforeGuard(call, g ssa.CallInstruction) {
+	if g != nil {
+		gi := optionIndex(call, g)
+		for _, o := range applyOptions(call) {
+			if o == g {
+				continue
+			}
+			fn := o.Common().StaticCallee()
+			if fn == nil || !inThisRepo(fn) {
+				continue
+			}
+			writes := false
+			for _, f := range closures(fn) {
+				if len(directWrites(f)) > 0 {
+					writes = true
+				}
+			}
+			if !writes {
+				continue
+			}
+			oi := optionIndex(call, o)
+			c.R.Check(gi >= 0 && oi > gi, site(call)+" no write before the guard ("+cfgx.ShortCallee(cfgx.CalleeName(o))+")", c.pos(o.Pos()), "the writing option runs after the controller guard", "the option "+cfgx.ShortCallee(cfgx.CalleeName(o))+" performs a write and is not ordered after the controller guard: it modifies an object another owner controls before the guard refuses the apply")
+		}
+	}
+}
+
+// optionIndex is the position of option constructor call o in the variadic
+// option list literal of call (-1 when it cannot be determined).
+func optionIndex(call, o ssa.CallInstruction) int {
+	v := o.Value()
+	if v == nil || v.Referrers() == nil {
+		return -1
+	}
+	for _, r := range *v.Referrers() {
+		st, ok := r.(*ssa.Store)
+		if !ok {
+			continue
+		}
+		if ia, ok := st.Addr.(*ssa.IndexAddr); ok {
+			if k, ok := cfgx.ConstInt(ia.Index); ok {
+				return int(k)
+			}
+		}
+	}
+	return -1
+}
+
+func inThisRepo(fn *ssa.Function) bool {
+	for fn.Parent() != nil {
+		fn = fn.Parent()
+	}
+	return fn.Pkg != nil && strings.HasPrefix(fn.Pkg.Pkg.Path(), strings.TrimSuffix(xp, "/"))
 }
 
 func typeMatches(v ssa.Value, want string) bool {
